@@ -711,10 +711,17 @@ fn reply_probe(msg: &minimq::InboundPublish<'_>) -> Value {
         Some(p) => wire_image(p.properties(&user).qos(QoS::AtMostOnce)),
         None => json!({"ok": false, "bytes": []}),
     };
+    // two layers of caller properties: the second list replaces the first, the correlation stays
+    let first = [Property::UserProperty("layer", "one"), Property::ContentType("text/plain")];
+    let layered = match msg.reply(&b"reply"[..]) {
+        Some(p) => wire_image(p.properties(&first).properties(&user).qos(QoS::AtMostOnce)),
+        None => json!({"ok": false, "bytes": []}),
+    };
     json!({
         "offered": msg.reply(&b""[..]).is_some(),
         "plain": plain,
         "decorated": decorated,
+        "layered": layered,
         "owned": [owned_probe::<0, 0>(msg), owned_probe::<4, 2>(msg), owned_probe::<8, 4>(msg),
                   owned_probe::<16, 8>(msg), owned_probe::<64, 16>(msg), owned_probe::<200, 64>(msg)],
     })
